@@ -495,8 +495,8 @@ fn put_line(c: &mut Ctx, inst: usize, v: &Version, row: u64) -> Option<String> {
     let e = &v[i].ents[j];
     let mut vals = vec![];
     for f in &e.fields {
-        if SYSTEM_FIELD_NAMES.contains(&f.name.as_str()) {
-            continue; // a refused version may carry such a name; writes through system fields are not part of C15
+        if SYSTEM_FIELD_NAMES.contains(&f.name.as_str()) || vals.iter().any(|v: &String| v.starts_with(&format!("{}:", f.name))) {
+            continue; // a refused version may carry such a name, or the same name twice: not part of the op language
         }
         let required = !f.nullable && f.dflt.is_none() && !f.ty.is_ref();
         let give = required || c.g.chance(1, 2);
